@@ -20,6 +20,8 @@ func init() {
 	reg("C05", "C05.R5", "E2", "finalizer gives an event back only when backEvent && !(timeout||child), once", 1, ruleFinalizerBack)
 	reg("C05", "C05.R7", "E1+E2", "every event of a batch is acknowledged: the commit loop covers batch.events[0..len) (same rule as C02.R3)", 1, ruleFIFOBatchFill)
 	reg("C05", "C05.R8", "E2", "a recycled event is a regular event again (kind reset on all paths of back or get, both pools)", 2, ruleRecycledEventIsRegular)
+	reg("C05", "C05.R9", "E2", "back() does not touch the event after handing it to the pool's storage (one owner at a time)", 2, ruleNoUseAfterPublish)
+	reg("C05", "C05.R10", "E2", "an event held by a joining action is always flushed: the action lets the processor leave only with its joining flag false (same rule as C15.R7)", 1, ruleBusyOnlyWhileJoining)
 	reg("C05", "C05.R6", "E1+E2", "every Event literal outside the pool is re-kinded (child/timeout/unlock) on all paths", 3, ruleForeignEvents)
 }
 
@@ -611,4 +613,67 @@ func ruleRecycledEventIsRegular(c *Ctx, r *Rule) {
 		r.Ob(ok, typ+"|recycled-event-is-regular", back.Pos(), "every event that goes through "+typ+" has its kind reset to regular on all paths of back() or of get() (a recycled split parent that keeps its kind is skipped by the batcher's send and still committed)")
 	}
 	r.Ob(n >= 2, "pool|implementations", token.NoPos, fmt.Sprintf("%d pool implementations examined", n))
+}
+
+// ruleNoUseAfterPublish: back() gives the event object away — it puts it into the pool's slot table or
+// into a sync.Pool — and from that instruction on another reader may own it. Nothing in back() touches
+// the event after that point ("no event object is ever owned by two holders at once").
+func ruleNoUseAfterPublish(c *Ctx, r *Rule) {
+	pr := c.pool()
+	if pr == nil {
+		r.Unresolved("pipeline.pool")
+		return
+	}
+	n := 0
+	for _, t := range c.Implementers(pr.iface) {
+		back := c.MethodOf(t, "back")
+		if back == nil || len(back.Params) < 2 {
+			continue
+		}
+		typ := namedOf(t).Obj().Name()
+		ev := ssa.Value(back.Params[1])
+		isEv := func(v ssa.Value) bool { return v != nil && stripConv(v) == ev }
+		var publish []ssa.Instruction
+		for _, b := range back.Blocks {
+			for _, in := range b.Instrs {
+				switch x := in.(type) {
+				case *ssa.Store:
+					if isEv(x.Val) {
+						publish = append(publish, in)
+					}
+				case ssa.CallInstruction:
+					if f := calleeFunc(x); f != nil && qualName(f) == "(*sync.Pool).Put" {
+						for _, a := range x.Common().Args {
+							if isEv(a) {
+								publish = append(publish, in)
+							}
+						}
+					}
+				}
+			}
+		}
+		n++
+		r.Inst(1)
+		r.Ob(len(publish) >= 1, typ+"|publishes", back.Pos(), "back() hands the event object to the pool's storage")
+		for i, p := range publish {
+			uses := func(in ssa.Instruction) bool {
+				if in == p {
+					return false
+				}
+				for _, op := range in.Operands(nil) {
+					if *op != nil && isEv(*op) {
+						return true
+					}
+				}
+				return false
+			}
+			used, at := c.pathExists(back, p, uses, nil)
+			msg := "after the event object is handed to the pool's storage, back() does not touch it any more"
+			if used {
+				msg = "back() still uses the event at " + c.pos(at.Pos()) + " after it was handed to the pool's storage: a reader that takes it in between owns an object somebody else is modifying"
+			}
+			r.Ob(!used, fmt.Sprintf("%s|no-use-after-publish#%d", typ, i), p.Pos(), msg)
+		}
+	}
+	r.Ob(n >= 2, "pool|back-implementations", token.NoPos, fmt.Sprintf("%d pool implementations examined", n))
 }
